@@ -867,9 +867,9 @@ namespace vh
     }
   }
 
-  template<class BuilderT, class ParamsT>
-  std::string runHist(Tok& t, std::size_t integ, std::size_t ncell, std::size_t ns, const std::vector<micm::Process>& procs,
-                      const ParamsT& params)
+  template<class BuilderT, class ParamsT, class BuilderT2, class ParamsT2>
+  std::string runHist(Tok& t, std::size_t integ, std::size_t integ2, std::size_t ncell, std::size_t ns,
+                      const std::vector<micm::Process>& procs, const ParamsT& params, const ParamsT2& params2)
   {
     std::vector<micm::Species> sp;
     for (std::size_t i = 0; i < ns; ++i)
@@ -880,8 +880,17 @@ namespace vh
                       .SetNumberOfGridCells(ncell)
                       .SetReorderState(false)
                       .Build();
+    // a second solver for the same system (other integrator or other coefficient set): its States have the same C++ type
+    auto solver2 = BuilderT2(params2)
+                       .SetSystem(micm::System(micm::SystemParameters{ .gas_phase_ = micm::Phase{ sp } }))
+                       .SetReactions(procs)
+                       .SetNumberOfGridCells(ncell)
+                       .SetReorderState(false)
+                       .Build();
     using ST = decltype(solver.GetState());
+    static_assert(std::is_same_v<ST, decltype(solver2.GetState())>);
     std::vector<std::unique_ptr<ST>> store(8);
+    std::vector<int> owner(8, 0);  // which solver a State belongs to (copied/moved along with it)
     std::size_t nrx = procs.size();
     std::size_t nops = t.nat();
     std::string out = "hist ";
@@ -895,6 +904,14 @@ namespace vh
             {
               auto s = t.nat();
               store[s] = std::make_unique<ST>(solver.GetState());
+              owner[s] = 0;
+              return "ok";
+            }
+            if (op == "new2")
+            {
+              auto s = t.nat();
+              store[s] = std::make_unique<ST>(solver2.GetState());
+              owner[s] = 1;
               return "ok";
             }
             if (op == "setc")
@@ -935,7 +952,7 @@ namespace vh
               double g = t.flt();
               if (!store[s])
                 return "nostate";
-              fillScratch(*store[s], integ, g);
+              fillScratch(*store[s], owner[s] == 0 ? integ : integ2, g);
               return "ok";
             }
             if (op == "solve")
@@ -944,7 +961,7 @@ namespace vh
               double dt = t.flt();
               if (!store[s])
                 return "nostate";
-              auto res = solver.Solve(dt, *store[s]);
+              auto res = owner[s] == 0 ? solver.Solve(dt, *store[s]) : solver2.Solve(dt, *store[s]);
               Out o;
               o.os << statusName(res.state_) << ' ' << hexd(res.final_time_) << ' ' << res.stats_.function_calls_ << ','
                    << res.stats_.jacobian_updates_ << ',' << res.stats_.number_of_steps_ << ',' << res.stats_.accepted_ << ','
@@ -973,6 +990,7 @@ namespace vh
               }
               auto copy = std::make_unique<ST>(*store[s]);
               store[d] = std::move(copy);
+              owner[d] = owner[s];
               return "ok";
             }
             if (op == "cpa")
@@ -987,6 +1005,7 @@ namespace vh
               if (!store[d])
                 store[d] = std::make_unique<ST>(solver.GetState());
               *store[d] = *store[s];
+              owner[d] = owner[s];
               return "ok";
             }
             if (op == "mvc")
@@ -1003,6 +1022,7 @@ namespace vh
               auto moved = std::make_unique<ST>(std::move(*store[s]));
               store[s].reset();
               store[d] = std::move(moved);
+              owner[d] = owner[s];
               return "ok";
             }
             if (op == "mva")
@@ -1020,6 +1040,7 @@ namespace vh
                 store[d] = std::make_unique<ST>(solver.GetState());
               *store[d] = std::move(*store[s]);
               store[s].reset();
+              owner[d] = owner[s];
               return "ok";
             }
             auto s = t.nat();
@@ -1054,13 +1075,28 @@ namespace vh
     std::size_t ncell = t.nat();
     std::size_t ns = t.nat();
     auto procs = mech(t);
+    using RB = typename BuilderOf<micm::RosenbrockSolverParameters, L, CSC, KIND>::type;
+    using BB = typename BuilderOf<micm::BackwardEulerSolverParameters, L, CSC, KIND>::type;
+    auto rp = micm::RosenbrockSolverParameters::ThreeStageRosenbrockParameters();
+    micm::BackwardEulerSolverParameters bp;
     if (integ == 0)
-    {
-      auto p = rosParams(t);
-      return runHist<typename BuilderOf<micm::RosenbrockSolverParameters, L, CSC, KIND>::type>(t, integ, ncell, ns, procs, p);
-    }
-    auto p = beParams(t);
-    return runHist<typename BuilderOf<micm::BackwardEulerSolverParameters, L, CSC, KIND>::type>(t, integ, ncell, ns, procs, p);
+      rp = rosParams(t);
+    else
+      bp = beParams(t);
+    std::size_t integ2 = t.nat();
+    auto rp2 = micm::RosenbrockSolverParameters::ThreeStageRosenbrockParameters();
+    micm::BackwardEulerSolverParameters bp2;
+    if (integ2 == 0)
+      rp2 = rosParams(t);
+    else
+      bp2 = beParams(t);
+    if (integ == 0 && integ2 == 0)
+      return runHist<RB, micm::RosenbrockSolverParameters, RB, micm::RosenbrockSolverParameters>(t, 0, 0, ncell, ns, procs, rp, rp2);
+    if (integ == 0 && integ2 == 1)
+      return runHist<RB, micm::RosenbrockSolverParameters, BB, micm::BackwardEulerSolverParameters>(t, 0, 1, ncell, ns, procs, rp, bp2);
+    if (integ == 1 && integ2 == 0)
+      return runHist<BB, micm::BackwardEulerSolverParameters, RB, micm::RosenbrockSolverParameters>(t, 1, 0, ncell, ns, procs, bp, rp2);
+    return runHist<BB, micm::BackwardEulerSolverParameters, BB, micm::BackwardEulerSolverParameters>(t, 1, 1, ncell, ns, procs, bp, bp2);
   }
 
   // ---------------------------------------------------------------- rate constants (C15)
